@@ -507,6 +507,315 @@ Check C20_powi_model_negative : forall j, -4 <= j <= -1 ->
 Print Assumptions C20_powi_model_negative.
 Print Assumptions C20_names.
 
+(* ====================================================================================
+   EXTENSION ROUND — the executable library models of coq/DisplayNum.v (the ones the DISPLAY
+   correspondence runs against the Rust code) are PROVED to satisfy the specifications that
+   C20_accuracy assumes of core::fmt / dec2flt, one theorem per specification
+   (proofs/DisplayNumDischarge1..4.v).  With them C20_accuracy_full is a theorem
+   (C20_accuracy_exec); its only remaining hypothesis is log10_sane on libm's log10.
+   ==================================================================================== *)
+Require Import Blots.proofs.DisplayNumDischarge1 Blots.proofs.DisplayNumDischarge2
+               Blots.proofs.DisplayNumDischarge3 Blots.proofs.DisplayNumDischarge4
+               Blots.proofs.DisplayNumDischarge5 Blots.proofs.DisplayNumDischarge6
+               Blots.proofs.DisplayNumDischarge7.
+(* the imported proof files open R_scope; restore the scopes of this file *)
+Open Scope char_scope.
+Open Scope Z_scope.
+
+(* ---- {:.N$}: the model has the documented shape -?d+(.d{N})? for every finite x, every N >= 0 ---- *)
+Theorem C20_fmt_prec_model_shape : forall x n,
+  is_finite x = true -> 0 <= n -> prec_shape n (fmt_prec_exec x n) = true.
+Proof. exact fmt_prec_exec_shape. Qed.
+Check C20_fmt_prec_model_shape : forall x n,
+  is_finite x = true -> 0 <= n -> prec_shape n (fmt_prec_exec x n) = true.
+Print Assumptions C20_fmt_prec_model_shape.
+
+(* ---- {:.N$}: the model prints the integer round_half_even(|x| * 10^N) (prec_q, exact Z arithmetic
+        on the binary expansion m * 2^e) over 10^N, with the sign of x: an exact rational identity ---- *)
+Theorem C20_fmt_prec_model_value : forall x n, is_finite x = true -> 0 <= n ->
+  denote_plain (fmt_prec_exec x n) = Qmake (cond_Zopp (nsign x) (prec_q x n)) (Z.to_pos (10 ^ n)).
+Proof. exact fmt_prec_exec_value. Qed.
+Check C20_fmt_prec_model_value : forall x n, is_finite x = true -> 0 <= n ->
+  denote_plain (fmt_prec_exec x n) = Qmake (cond_Zopp (nsign x) (prec_q x n)) (Z.to_pos (10 ^ n)).
+Print Assumptions C20_fmt_prec_model_value.
+
+(* ---- {:.N$}: ties go to the even digit (round-half-to-even, as core::fmt's exact mode does): when
+        |x| * 10^N is exactly halfway between two integers the even one is printed ---- *)
+Theorem C20_fmt_prec_model_half_even : forall s m e n N D, 0 <= n -> mag_frac m e = (N, D) ->
+  2 * ((N * 10 ^ n) mod D) = D -> Z.even (prec_q (S754_finite s m e) n) = true.
+Proof. exact fmt_prec_exec_half_even. Qed.
+Check C20_fmt_prec_model_half_even : forall s m e n N D, 0 <= n -> mag_frac m e = (N, D) ->
+  2 * ((N * 10 ^ n) mod D) = D -> Z.even (prec_q (S754_finite s m e) n) = true.
+Print Assumptions C20_fmt_prec_model_half_even.
+(* e.g. {:.0} of 2.5 is "2" and {:.1} of 0.25 is "0.2" in the model *)
+Example C20_half_even_samples :
+  fmt_prec_exec (num_of_bits 0x4004000000000000) 0 = tx "2" /\
+  fmt_prec_exec (num_of_bits 0x3fd0000000000000) 1 = tx "0.2" /\
+  fmt_prec_exec (num_of_bits 0x3fd8000000000000) 2 = tx "0.38".
+Proof. vm_compute. repeat split. Qed.
+
+(* ---- {:.N$}: hence the printed decimal is a nearest multiple of 10^-N of x — for EVERY N >= 0
+        (C20_accuracy needs N <= 18 only) ---- *)
+Theorem C20_fmt_prec_model_accurate : forall m dp, is_finite m = true -> 0 <= dp ->
+  (Rabs (Q2R (denote_plain (fmt_prec_exec m dp)) - RV m) <= / 2 * p10 (- dp))%R.
+Proof. exact fmt_prec_exec_accurate. Qed.
+Check C20_fmt_prec_model_accurate : forall m dp, is_finite m = true -> 0 <= dp ->
+  (Rabs (Q2R (denote_plain (fmt_prec_exec m dp)) - RV m) <= / 2 * p10 (- dp))%R.
+Print Assumptions C20_fmt_prec_model_accurate.
+Print Assumptions C20_names.
+
+(* ---- the decimal exponent the {:.14e} model computes (bit-length estimate * 1233/4096, corrected by
+        at most 8 unit steps) IS floor(log10 |x|) for every VALID double (the estimate is checked
+        exhaustively over the 2110 bit-length differences binary64 allows; fuel 8 is not enough for
+        arbitrary (m, e) pairs, which is why validity is assumed) ---- *)
+Theorem C20_e10_model_exact : forall s m e N D,
+  valid (S754_finite s m e) -> mag_frac m e = (N, D) ->
+  (p10 (e10_frac N D) <= IZR N / IZR D < p10 (e10_frac N D + 1))%R /\ -340 <= e10_frac N D <= 320.
+Proof. exact e10_frac_spec. Qed.
+Check C20_e10_model_exact : forall s m e N D,
+  valid (S754_finite s m e) -> mag_frac m e = (N, D) ->
+  (p10 (e10_frac N D) <= IZR N / IZR D < p10 (e10_frac N D + 1))%R /\ -340 <= e10_frac N D <= 320.
+Print Assumptions C20_e10_model_exact.
+Print Assumptions C20_names.
+
+(* ---- {:.14e}: for every valid finite double in a decade the model prints  -?d.d{14}e<k>  whose
+        exponent parse::<i32> reads back and whose value is x correctly rounded to 15 significant
+        digits (error <= 1/2 unit of the 15th digit; carry 9.99..95 -> 1.00..0e(k+1) included):
+        the first hypothesis of C20_accuracy, for valid x ---- *)
+Theorem C20_fmt_exp14_model_correct : forall x k,
+  valid x -> is_finite x = true -> in_decade x k ->
+  exists ms es kk, split_once "e" (fmt_exp14_exec x) = Some (ms, es) /\ mant14_shape ms = true /\
+    parse_i32 es = Some kk /\
+    (Qabs (denote_plain ms * Qpower (10 # 1) kk - num_to_Q x) <= (1 # 2) * Qpower (10 # 1) (k - 14)%Z)%Q.
+Proof. exact fmt_exp14_exec_correct. Qed.
+Check C20_fmt_exp14_model_correct : forall x k,
+  valid x -> is_finite x = true -> in_decade x k ->
+  exists ms es kk, split_once "e" (fmt_exp14_exec x) = Some (ms, es) /\ mant14_shape ms = true /\
+    parse_i32 es = Some kk /\
+    (Qabs (denote_plain ms * Qpower (10 # 1) kk - num_to_Q x) <= (1 # 2) * Qpower (10 # 1) (k - 14)%Z)%Q.
+Print Assumptions C20_fmt_exp14_model_correct.
+Print Assumptions C20_names.
+
+(* ---- parse::<f64>: the model's rn_ratio s N D is the IEEE round-to-nearest-even double of N/D
+        (Flocq: Fdiv_core_correct + binary_round_aux_correct'), finite unless the rounding overflows ---- *)
+Theorem C20_parse_model_nearest : forall s N D, 0 < N -> 0 < D ->
+  let v := (IZR N / IZR D)%R in
+  valid (rn_ratio s N D) /\
+  ((Rabs (rnd64 v) < bpow radix2 1024)%R ->
+   RV (rn_ratio s N D) = cond_Ropp s (rnd64 v) /\ is_finite (rn_ratio s N D) = true).
+Proof. exact rn_ratio_correct. Qed.
+Check C20_parse_model_nearest : forall s N D, 0 < N -> 0 < D ->
+  let v := (IZR N / IZR D)%R in
+  valid (rn_ratio s N D) /\
+  ((Rabs (rnd64 v) < bpow radix2 1024)%R ->
+   RV (rn_ratio s N D) = cond_Ropp s (rnd64 v) /\ is_finite (rn_ratio s N D) = true).
+Print Assumptions C20_parse_model_nearest.
+Print Assumptions C20_names.
+
+(* ---- parse::<f64> of a 15-digit mantissa text is within 2e-15 of it: the second hypothesis of
+        C20_accuracy ---- *)
+Theorem C20_parse_model_close : forall t, mant14_shape t = true ->
+  exists m, parse_f64_exec t = Some m /\ is_finite m = true /\
+    (Qabs (num_to_Q m - denote_plain t) <= 2 # 1000000000000000)%Q.
+Proof. exact parse_f64_exec_close. Qed.
+Check C20_parse_model_close : forall t, mant14_shape t = true ->
+  exists m, parse_f64_exec t = Some m /\ is_finite m = true /\
+    (Qabs (num_to_Q m - denote_plain t) <= 2 # 1000000000000000)%Q.
+Print Assumptions C20_parse_model_close.
+Print Assumptions C20_names.
+
+(* ---- two models of str::parse::<f64> agree: on every mantissa text -?d.d+ the display model's parser
+        returns exactly C16's reference value rn_decimal (NumText.v; proved to be IEEE nearest-even in
+        C16_rn_decimal_correct and compared with Rust's from_str by the C16 NUMTEXT stream) ---- *)
+Require Blots.NumText Blots.proofs.DisplayNumDischarge8.
+Theorem C20_parse_model_is_C16_reference : forall neg d fp,
+  is_digit d = true -> all_digits fp = true ->
+  parse_f64_exec (mk_plain neg [d] (Some fp)) =
+  Some (NumText.rn_decimal neg (digits_value (d :: fp)) (- Z.of_nat (length fp))).
+Proof. exact DisplayNumDischarge8.parse_f64_exec_is_rn_decimal. Qed.
+Check C20_parse_model_is_C16_reference : forall neg d fp,
+  is_digit d = true -> all_digits fp = true ->
+  parse_f64_exec (mk_plain neg [d] (Some fp)) =
+  Some (NumText.rn_decimal neg (digits_value (d :: fp)) (- Z.of_nat (length fp))).
+Print Assumptions C20_parse_model_is_C16_reference.
+Print Assumptions C20_names.
+
+(* ---- the remaining hypotheses of C20_wellformed_total, for the executable models: {:.14e} has the
+        documented shape -?d.d+e-?d+ on every valid finite double (zeros included) ---- *)
+Theorem C20_fmt_exp14_model_shape : forall x,
+  valid x -> is_finite x = true -> exp_shape (fmt_exp14_exec x) = true.
+Proof. exact fmt_exp14_exec_shape. Qed.
+Check C20_fmt_exp14_model_shape : forall x,
+  valid x -> is_finite x = true -> exp_shape (fmt_exp14_exec x) = true.
+Print Assumptions C20_fmt_exp14_model_shape.
+Print Assumptions C20_names.
+
+(* ---- parse::<f64> of a mantissa text -?d.d+ (any number of fraction digits) is a finite double ---- *)
+Theorem C20_parse_model_finite : forall s m,
+  mant_shape s = true -> parse_f64_exec s = Some m -> is_finite m = true.
+Proof. exact parse_f64_exec_finite. Qed.
+Check C20_parse_model_finite : forall s m,
+  mant_shape s = true -> parse_f64_exec s = Some m -> is_finite m = true.
+Print Assumptions C20_parse_model_finite.
+Print Assumptions C20_names.
+
+(* ---- powi(10, j), -2 <= j <= 21, is a finite non-zero double of magnitude 2^-80 .. 2^80 ---- *)
+Theorem C20_powi_model_bounds : forall j, -2 <= j <= 21 ->
+  exists s m e, powi_exec c_ten j = S754_finite s m e /\ valid (powi_exec c_ten j) /\
+    (bpow radix2 (-80) <= Rabs (RV (powi_exec c_ten j)) <= bpow radix2 80)%R.
+Proof. exact powi_exec_std_bounds. Qed.
+Check C20_powi_model_bounds : forall j, -2 <= j <= 21 ->
+  exists s m e, powi_exec c_ten j = S754_finite s m e /\ valid (powi_exec c_ten j) /\
+    (bpow radix2 (-80) <= Rabs (RV (powi_exec c_ten j)) <= bpow radix2 80)%R.
+Print Assumptions C20_powi_model_bounds.
+Print Assumptions C20_names.
+
+(* ---- WELL-FORMEDNESS FOR THE EXECUTABLE MODEL: every valid double (NaN, infinities, zeros, subnormals
+        included), both variants of the code, is displayed as a well-formed numeral by
+        format_display_number running on the executable library models.  Only hypothesis: log10_sane. ---- *)
+Theorem C20_wellformed_exec : forall log10 fx, log10_sane log10 ->
+  forall x t, valid_binary 53 1024 x = true ->
+  format_display_number log10 powi_exec fmt_prec_exec fmt_exp14_exec parse_f64_exec fx x = Ok t ->
+  wf_numeral t = true.
+Proof. exact display_wellformed_exec. Qed.
+Check C20_wellformed_exec : forall log10 fx, log10_sane log10 ->
+  forall x t, valid_binary 53 1024 x = true ->
+  format_display_number log10 powi_exec fmt_prec_exec fmt_exp14_exec parse_f64_exec fx x = Ok t ->
+  wf_numeral t = true.
+Print Assumptions C20_wellformed_exec.
+Print Assumptions C20_names.
+
+(* ---- THE ACCURACY CLAUSE FOR THE EXECUTABLE MODEL (= C20_accuracy_full): for every valid finite
+        non-zero double the text produced by format_display_number running on the executable library
+        models is less than one unit of the 15th significant digit away from x.  Only hypothesis:
+        log10_sane (libm's log10 is off by less than one at the floor). ---- *)
+Theorem C20_accuracy_exec : forall log10, log10_sane log10 ->
+  forall x t, valid_binary prec emax x = true -> is_finite x = true -> neqb x nzero = false ->
+    format_display_number log10 powi_exec fmt_prec_exec fmt_exp14_exec parse_f64_exec true x = Ok t ->
+    accurate15 x t.
+Proof. exact display_accurate_exec. Qed.
+Check C20_accuracy_exec : forall log10, log10_sane log10 ->
+  forall x t, valid_binary prec emax x = true -> is_finite x = true -> neqb x nzero = false ->
+    format_display_number log10 powi_exec fmt_prec_exec fmt_exp14_exec parse_f64_exec true x = Ok t ->
+    accurate15 x t.
+Print Assumptions C20_accuracy_exec.
+Print Assumptions C20_names.
+Lemma C20_accuracy_full_holds : C20_accuracy_full.
+Proof. exact display_accurate_exec. Qed.
+
+(* ---- NO PANIC FOR THE EXECUTABLE MODEL: the code as it is (fx = true) returns a text for every valid
+        double under log10_sane alone (C20_no_panic needs a bound on floor(log10 a) for EVERY a; here the
+        two arguments log10 is actually called on are shown to be valid non-zero doubles of known decade) ---- *)
+Theorem C20_total_exec : forall log10, log10_sane log10 ->
+  forall x, valid_binary prec emax x = true ->
+  exists t, format_display_number log10 powi_exec fmt_prec_exec fmt_exp14_exec parse_f64_exec true x = Ok t.
+Proof. exact display_total_exec. Qed.
+Check C20_total_exec : forall log10, log10_sane log10 ->
+  forall x, valid_binary prec emax x = true ->
+  exists t, format_display_number log10 powi_exec fmt_prec_exec fmt_exp14_exec parse_f64_exec true x = Ok t.
+Print Assumptions C20_total_exec.
+Print Assumptions C20_names.
+
+(* ---- SUMMARY for the executable model, code as it is: under log10_sane EVERY valid double is displayed
+        (no panic), as a well-formed numeral, which for finite non-zero x is less than one unit of the 15th
+        significant digit away from x ---- *)
+Theorem C20_exec_complete : forall log10, log10_sane log10 ->
+  forall x, valid_binary prec emax x = true ->
+  exists t,
+    format_display_number log10 powi_exec fmt_prec_exec fmt_exp14_exec parse_f64_exec true x = Ok t /\
+    wf_numeral t = true /\
+    (is_finite x = true -> neqb x nzero = false -> accurate15 x t).
+Proof. exact display_exec_complete. Qed.
+Check C20_exec_complete : forall log10, log10_sane log10 ->
+  forall x, valid_binary prec emax x = true ->
+  exists t,
+    format_display_number log10 powi_exec fmt_prec_exec fmt_exp14_exec parse_f64_exec true x = Ok t /\
+    wf_numeral t = true /\
+    (is_finite x = true -> neqb x nzero = false -> accurate15 x t).
+Print Assumptions C20_exec_complete.
+Print Assumptions C20_names.
+
+(* ---- THE HYPOTHESIS ON libm, AS THE REAL FUNCTION SATISFIES IT.  log10_sane (above, kept as it was stated) asks
+        floor(log10 a) to be right for negative a too, but f64::log10 returns NaN on negative arguments, so the real
+        function does NOT satisfy it (C20_log10_sane_too_strong).  format_display_number only ever applies log10 to
+        absolute values, and every *_exec theorem holds under the weaker log10_sane_pos (sign bit clear), which is
+        what the LOG10SANE stream evaluates on the real f64::log10.  The theorems above are corollaries. ---- *)
+Definition log10_sane_pos (log10 : num -> num) : Prop :=
+  forall a k, valid_binary prec emax a = true -> nsign a = false -> in_decade a k ->
+              k <= as_i32 (nfloor (log10 a)) <= k + 1.
+Lemma C20_log10_sane_implies_pos : forall log10, log10_sane log10 -> log10_sane_pos log10.
+Proof. intros log10 H a k V _ D. exact (H a k V D). Qed.
+Example C20_log10_sane_too_strong : forall log10,
+  log10 (num_of_bits 0xc07f400000000000) = S754_nan ->       (* log10(-500.0) = NaN *)
+  ~ log10_sane log10.
+Proof.
+  intros log10 Hn HS.
+  assert (D : in_decade (num_of_bits 0xc07f400000000000) 2).
+  { split; [apply Qle_bool_iff|apply Qlt_alt]; vm_compute; reflexivity. }
+  assert (V : valid_binary prec emax (num_of_bits 0xc07f400000000000) = true) by (vm_compute; reflexivity).
+  specialize (HS _ 2 V D). rewrite Hn in HS. cbn in HS. destruct HS as [H1 _]. apply H1. reflexivity.
+Qed.
+
+Theorem C20_accuracy_exec_pos : forall log10, log10_sane_pos log10 ->
+  forall x t, valid_binary prec emax x = true -> is_finite x = true -> neqb x nzero = false ->
+    format_display_number log10 powi_exec fmt_prec_exec fmt_exp14_exec parse_f64_exec true x = Ok t ->
+    accurate15 x t.
+Proof. exact display_accurate_exec_pos. Qed.
+Check C20_accuracy_exec_pos : forall log10, log10_sane_pos log10 ->
+  forall x t, valid_binary prec emax x = true -> is_finite x = true -> neqb x nzero = false ->
+    format_display_number log10 powi_exec fmt_prec_exec fmt_exp14_exec parse_f64_exec true x = Ok t ->
+    accurate15 x t.
+Print Assumptions C20_accuracy_exec_pos.
+Print Assumptions C20_names.
+
+Theorem C20_wellformed_exec_pos : forall log10 fx, log10_sane_pos log10 ->
+  forall x t, valid_binary 53 1024 x = true ->
+  format_display_number log10 powi_exec fmt_prec_exec fmt_exp14_exec parse_f64_exec fx x = Ok t ->
+  wf_numeral t = true.
+Proof. exact display_wellformed_exec_pos. Qed.
+Check C20_wellformed_exec_pos : forall log10 fx, log10_sane_pos log10 ->
+  forall x t, valid_binary 53 1024 x = true ->
+  format_display_number log10 powi_exec fmt_prec_exec fmt_exp14_exec parse_f64_exec fx x = Ok t ->
+  wf_numeral t = true.
+Print Assumptions C20_wellformed_exec_pos.
+Print Assumptions C20_names.
+
+(* the summary theorem under the hypothesis the real libm meets: total, well-formed, accurate *)
+Theorem C20_exec_complete_pos : forall log10, log10_sane_pos log10 ->
+  forall x, valid_binary prec emax x = true ->
+  exists t,
+    format_display_number log10 powi_exec fmt_prec_exec fmt_exp14_exec parse_f64_exec true x = Ok t /\
+    wf_numeral t = true /\
+    (is_finite x = true -> neqb x nzero = false -> accurate15 x t).
+Proof. exact display_exec_complete_pos. Qed.
+Check C20_exec_complete_pos : forall log10, log10_sane_pos log10 ->
+  forall x, valid_binary prec emax x = true ->
+  exists t,
+    format_display_number log10 powi_exec fmt_prec_exec fmt_exp14_exec parse_f64_exec true x = Ok t /\
+    wf_numeral t = true /\
+    (is_finite x = true -> neqb x nzero = false -> accurate15 x t).
+Print Assumptions C20_exec_complete_pos.
+Print Assumptions C20_names.
+
+(* ---- log10_sane is satisfiable: a log10 returning floor(log10 a) exactly, as a double ---- *)
+Example C20_hyp_log10_satisfiable : log10_sane log10_floor_model.
+Proof. exact log10_floor_model_sane. Qed.
+
+(* ---- ... and with that exact log10 NO hypothesis is left: the display algorithm of values.rs, run on
+        exact models of every library call it makes, is accurate to 15 significant digits for every
+        valid finite non-zero double ---- *)
+Theorem C20_accuracy_exact_library : forall x t,
+  valid_binary prec emax x = true -> is_finite x = true -> neqb x nzero = false ->
+  format_display_number log10_floor_model powi_exec fmt_prec_exec fmt_exp14_exec parse_f64_exec true x = Ok t ->
+  accurate15 x t.
+Proof. exact display_accurate_exact_log10. Qed.
+Check C20_accuracy_exact_library : forall x t,
+  valid_binary prec emax x = true -> is_finite x = true -> neqb x nzero = false ->
+  format_display_number log10_floor_model powi_exec fmt_prec_exec fmt_exp14_exec parse_f64_exec true x = Ok t ->
+  accurate15 x t.
+Print Assumptions C20_accuracy_exact_library.
+Print Assumptions C20_names.
+
 (* REFUTED on the code before /repo commit 60da55e (fx = false), finding C20-F1 (now fixed):
    x = 999999999999998.875 (bits 430c6bf52633fff7).  f64::log10 returns 15.0 both on x and on
    the rounded value 1e15 (these two table entries are re-validated against the real function
